@@ -45,6 +45,10 @@ class Obj:
         self._rec(tag)
         raise ValueError(tag)
 
+    def plain_raise(self, tag):
+        self._rec(tag)
+        raise KeyError(tag)
+
     async def coro_long(self, tag):
         """in flight for a long time; ends at once when cancelled"""
         self._rec(tag)
@@ -63,7 +67,7 @@ class Obj:
         return ("ret", tag)
 
 
-async def stopping_scenario(n_long, n_cleanup, order_seed):
+async def stopping_scenario(n_long, n_cleanup, order_seed, immediate=False):
     """a burst of coroutine calls is in flight on the owner's loop when that loop is stopped (force_stop): every caller
     must get an outcome (a result or an exception), none may be left waiting"""
     import random
@@ -80,8 +84,9 @@ async def stopping_scenario(n_long, n_cleanup, order_seed):
     try:
         for i, k in enumerate(kinds):
             futs.append(asyncio.ensure_future(getattr(proxy, k)(1000 + i)))
-        await asyncio.sleep(0.1)
-        started = len(obj.calls)
+        if not immediate:
+            await asyncio.sleep(0.1)
+        started = len(obj.calls) if not immediate else len(kinds)   # immediate: the stop request follows the calls at once
         thread.force_stop()
         done, pending = await asyncio.wait(futs, timeout=4.0) if futs else (set(), set())
         outcomes = []
@@ -207,6 +212,23 @@ async def scenario(ctx_rows, burst):
     await settle_owner()
     order = [c[0] for c in obj.calls if c[0] > base]
     rows.append(("burst", "main", "main", 0, "fifo" if order == list(range(base + 1, base + burst + 1)) and all(c[1] == owner_tid for c in obj.calls if c[0] > base) else f"order:{order[:10]}"))
+    # a burst in which some queued calls fail on the owner (a method that raises, one that returns a value): the calls queued
+    # behind them, and later ones, still run, in order
+    base = tagn[0]
+    kinds = ["plain", "plain_ret", "plain", "plain_raise", "plain", "plain", "plain_raise", "plain"]
+    expect_run = []
+    for k in kinds * 3:
+        tagn[0] += 1
+        getattr(proxy, k)(tagn[0])
+        expect_run.append(tagn[0])
+    await settle_owner()
+    tagn[0] += 1
+    proxy.plain(tagn[0])
+    expect_run.append(tagn[0])
+    await settle_owner()
+    ran = [c[0] for c in obj.calls if c[0] > base]
+    rows.append(("mixedburst", "main", "main", 0, "all-ran" if ran == expect_run else f"ran {len(ran)} of {len(expect_run)} queued calls: {ran[:12]}"))
+    errors_on_owner.clear()
     # closed owner loop
     thread.force_stop()
     await thread.thread_complete
@@ -267,7 +289,7 @@ def run(ctx):
     lines = []
     for rows in allrows:
         for kind, lookup, caller, closed, obs in rows:
-            if kind == "burst":
+            if kind in ("burst", "mixedburst"):
                 continue
             mk = {"attr": "attr", "plain": "plain", "plain_ret": "plain", "plain_zero": "plain", "plain_empty": "plain", "coro": "coro", "coro_raise": "coro"}[kind]
             lines.append(f"c20 {mk} {1 if caller == 'owner' else 0} {closed}")
@@ -283,6 +305,10 @@ def run(ctx):
             if kind == "burst":
                 if obs != "fifo":
                     ctx.violation(f"queued calls did not run in call order on the owner's thread: {obs}", {"kind": "order"}, {"kind": "burst"})
+                continue
+            if kind == "mixedburst":
+                if obs != "all-ran":
+                    ctx.violation(f"queued plain calls behind a failing one were not all executed in order on the owner: {obs}", {"kind": "order"}, {"kind": "mixedburst"})
                 continue
             action = model[k] if model is not None else None
             k += 1
@@ -318,8 +344,9 @@ def run(ctx):
                     ctx.corr_diff(f"proxy behaviour differs for {kind} (lookup {lookup}, caller {caller}, closed {closed})", {"kind": kind, "lookup": lookup, "caller": caller}, got, f"{action} => {want}")
     # owner loop stopping with a burst of coroutine calls in flight
     for (nl, nc) in [(1, 0), (0, 1), (1, 1), (2, 2), (3, 1), (1, 3)] + ([(4, 4), (0, 5), (5, 0)] if ctx.tier == "thorough" else []):
-        for seed in range(ctx.n(2, 6)):
-            kinds, started, outcomes, stopped = asyncio.run(stopping_scenario(nl, nc, seed))
+        for seed in range(ctx.n(4, 12)):
+            immediate = seed % 2 == 1
+            kinds, started, outcomes, stopped = asyncio.run(stopping_scenario(nl, nc, seed, immediate))
             ctx.cov["evaluations"] += 1
             ctx.cov["distinct_nontrivial"] += 1
             ctx.count("stopping-burst")
@@ -333,10 +360,10 @@ def run(ctx):
             elif not stopped:
                 bad = f"owner loop thread did not end after force_stop with calls in flight ({' '.join(outcomes)})"
             if bad:
-                ctx.violation(bad, {"kind": "stopping"}, {"kind": "stopping", "n_long": nl, "n_cleanup": nc, "seed": seed})
+                ctx.violation(bad, {"kind": "stopping"}, {"kind": "stopping", "n_long": nl, "n_cleanup": nc, "seed": seed, "immediate": immediate})
     ctx.cov["rule"] = (f"{rounds} rounds with fresh threads: non-callable / plain / plain returning 7, 0 or the empty string / coroutine / raising coroutine x attribute looked up on the caller's or the owner's loop x called from the caller's "
                        "or the owner's loop; a burst of queued plain calls for ordering; plain and coroutine calls after the owner's loop was stopped and closed (must be dropped silently); bursts of 1..4 (..8 thorough) long-running coroutine calls, "
-                       "some of which need further loop iterations to unwind when cancelled, in flight when the owner's loop is stopped: every caller gets an outcome; real threads, thread identity recorded inside the method")
+                       "some of which need further loop iterations to unwind when cancelled, in flight - or just requested - when the owner's loop is stopped: every caller gets an outcome; a burst of queued plain calls some of which fail on the owner; real threads, thread identity recorded inside the method")
     ctx.exhaustive = True
 
 
@@ -347,7 +374,7 @@ def replay(ctx, obj):
     logging.disable(logging.CRITICAL)
     r = obj.get("replay", {})
     if r.get("kind") == "stopping":
-        kinds, started, outcomes, stopped = asyncio.run(stopping_scenario(r["n_long"], r["n_cleanup"], r["seed"]))
+        kinds, started, outcomes, stopped = asyncio.run(stopping_scenario(r["n_long"], r["n_cleanup"], r["seed"], r.get("immediate", False)))
         bad = [o for o in outcomes if o.endswith("HANG")] or (not stopped)
         print(f"replay stopping burst {kinds}: {outcomes} stopped={stopped}: {'FAILS' if bad else 'ok'}")
         if bad:
